@@ -27,7 +27,7 @@ from .values import Atom, Ref, SBool, SFloat, SInt, SNum, Tmpl, Unsupported, to_
 class IndSpec:
     def __init__(self, cls, params=None, lets=None, inv=None, inputs=None, helpers=None, prior=None,
                  variants=None, props=None, window=None, ctor=None, extra_pre=None, post=None,
-                 name_kwargs=None, managed=None, hints=None, notes=None, subs=None):
+                 name_kwargs=None, managed=None, hints=None, notes=None, subs=None, general_pre=None):
         self.cls = cls  # qualname of the class
         self.params = params or {}  # name -> (type, constraint src | None)
         self.lets = lets or {}
@@ -44,6 +44,9 @@ class IndSpec:
         self.managed = managed or {}
         self.hints = hints or []
         self.notes = notes or []
+        # case split on a parameter: {param: clause} is assumed in every variant that leaves the parameter symbolic; the
+        # remaining values are covered by variants that fix it ("const:<int>"); together they cover extra_pre
+        self.general_pre = general_pre or {}
         self.subs = subs or {}  # spec expr -> {role: prior|helper, ghost: {param: src}, parent: spec expr}
 
 
@@ -60,6 +63,8 @@ def sym_param(name, ty):
         return Tmpl((Atom(name, "str"), ".val"))
     if ty.startswith("lit:"):
         return ty[4:]
+    if ty.startswith("const:"):
+        return int(ty[6:])
     if ty.startswith("func:"):
         return ("__func__", ty[5:])
     raise Unsupported(f"param type {ty}")
@@ -111,6 +116,9 @@ def build_indicator_task(spec, variant):
             except Unsupported:
                 continue
             assume_spec(ex, st0, v, f"pre:{label}")
+        for pname, src in spec.general_pre.items():
+            if not str(variant.get(pname, "")).startswith("const:"):
+                assume_spec(ex, st0, SpecEval(ex, st0, env).ev(src), f"pre:case:{pname}")
         for st1, obj in instantiate(ex, cls, [], kwargs, st0, None):
             p = st1.heap[series.oid]
             st1.assume(z3.And(i >= 0, i < p.length))
